@@ -67,16 +67,21 @@ def run(req):
             res = list(res)
         oc = Outcome('return', result=res)
     except BaseException as e:  # noqa
-        oc = Outcome('raise', exc=type(e).__name__)
+        def qn(k):
+            return k.__name__ if k.__module__ in ('builtins', 'exceptions') or k.__module__.startswith('pycdlib') else k.__module__ + '.' + k.__name__
+        oc = Outcome('raise', exc=qn(type(e)))
         oc.exc_obj = e
-        oc.exc_names = [k.__name__ for k in type(e).__mro__]
+        oc.exc_names = [qn(k) for k in type(e).__mro__]
         out['traceback'] = traceback.format_exc()[-1500:]
     out['outcome'] = {'kind': oc.kind, 'exc': oc.exc, 'result': jsonable(oc.result)}
     failed = []
     clauses = {}
     a = c.a
     if oc.kind == 'return':
-        for name, cl in (K.post(c, a, oc) or {}).items():
+        posts = dict(K.post(c, a, oc) or {})
+        if K.P.get('_canary'):
+            posts['canary'] = False
+        for name, cl in posts.items():
             clauses['post:' + name] = bool(cl)
         for ename, cond in (K.raises(c, a) or {}).items():
             if cond is not None:
@@ -107,13 +112,35 @@ def run(req):
     return out
 
 
+def run_one(req):
+    import os
+    import time
+    env = req.get('env') or {}
+    saved = {k: os.environ.get(k) for k in env}
+    os.environ.update(env)
+    if 'TZ' in env:
+        time.tzset()
+    try:
+        return run(req)
+    except BaseException:  # noqa
+        return {'harness_error': traceback.format_exc()}
+    finally:
+        for k, v in saved.items():
+            if v is None:
+                os.environ.pop(k, None)
+            else:
+                os.environ[k] = v
+        if 'TZ' in env:
+            time.tzset()
+
+
 def main():
     with open(sys.argv[1]) as f:
         req = json.load(f)
-    try:
-        out = run(req)
-    except BaseException:  # noqa
-        out = {'harness_error': traceback.format_exc()}
+    if isinstance(req, list):
+        out = [run_one(r) for r in req]
+    else:
+        out = run_one(req)
     json.dump(out, sys.stdout)
     sys.stdout.write('\n')
 
